@@ -11,6 +11,7 @@ import (
 	"verif/sim"
 
 	"github.com/brewlin/net-protocol/pkg/buffer"
+	"github.com/brewlin/net-protocol/pkg/verifhook"
 	"github.com/brewlin/net-protocol/pkg/waiter"
 	tcpip "github.com/brewlin/net-protocol/protocol"
 	"github.com/brewlin/net-protocol/protocol/network/ipv4"
@@ -96,13 +97,14 @@ func (f *fakeEP) HandleControlPacket(id stack.TransportEndpointID, typ stack.Con
 
 type dmWorld struct {
 	*PeerWorld
-	addrOff bool // the second address of NIC 1 (dmLocal[2]) is currently removed
-	users   []*dmSock // ... but sockets that held a route from it when it was removed keep it alive until they are gone (reference-counted, documented)
-	prop  string
-	cfg   DemuxCfg
-	link2 *Link
-	socks []*dmSock
-	npkt  int
+	addrOff    bool      // the second address of NIC 1 (dmLocal[2]) is currently removed
+	nextOffset int       // when > 0: where the next ephemeral port search starts (offset into [16000, 65535])
+	users      []*dmSock // ... but sockets that held a route from it when it was removed keep it alive until they are gone (reference-counted, documented)
+	prop       string
+	cfg        DemuxCfg
+	link2      *Link
+	socks      []*dmSock
+	npkt       int
 }
 
 func (w *dmWorld) owned(nic int, dst tcpip.Address) bool {
@@ -223,7 +225,93 @@ func (w *dmWorld) open(kind, ai, pi, ri, mode int) *dmSock {
 	if len(w.socks) >= 12 {
 		return nil
 	}
-	return w.openAt(kind, dmLocal[ai%4], dmPorts[pi%3], ri, mode, ai)
+	if kind == 5 {
+		w.activeOpen(ai, pi, ri, mode)
+		return nil
+	}
+	port := dmPorts[pi%3]
+	if mode&64 != 0 && kind <= 2 {
+		port = dmHighPort // a port inside the ephemeral range: active opens must steer clear of it while it is held
+	}
+	return w.openAt(kind, dmLocal[ai%4], port, ri, mode, ai)
+}
+
+const dmHighPort = 20000
+
+// activeOpen: a TCP socket of the stack connects to a peer - unbound (the stack picks an
+// ephemeral port, the search starting where the simulator says), or bound first to one of the
+// scenario's ports, as an IPv4 socket or as a dual-stack IPv6 socket naming its IPv4 peer by the
+// mapped address. The peer refuses; the socket is closed. What the socket reserved must be
+// exclusive while it lasts and free afterwards (later binds are judged as always).
+func (w *dmWorld) activeOpen(ai, pi, ri, mode int) {
+	dual := mode&32 != 0
+	netw := ipv4.ProtocolNumber
+	if dual {
+		netw = ipv6.ProtocolNumber
+	}
+	ep, err := w.S.S.NewEndpoint(tcp.ProtocolNumber, netw, &waiter.Queue{})
+	must(err, "tcp endpoint")
+	defer func() {
+		ep.Close()
+		w.Settle()
+		w.Take()
+	}()
+	bound := mode&1 != 0
+	var lport uint16
+	if bound {
+		lport = []uint16{dmPorts[0], dmPorts[1], dmPorts[2], dmHighPort}[pi%4]
+		laddr := tcpip.Address("")
+		if !dual {
+			laddr = dmLocal[ai%3] // wildcard or one of NIC 1's addresses (the peers are reached through NIC 1)
+		}
+		if w.addrOff && laddr == dmLocal[2] {
+			return
+		}
+		conflict := w.conflict(true, laddr, lport)
+		e := ep.Bind(tcpip.FullAddress{Addr: laddr, Port: lport}, nil)
+		w.bindResult(true, laddr, lport, conflict, e)
+		if e != nil {
+			return
+		}
+	} else if mode&2 != 0 {
+		w.nextOffset = dmHighPort - 16000 // the search for an ephemeral port starts exactly at the high port
+	}
+	ra, rp := dmRAddr[ri%3], uint16(9100+ri%3)
+	w.Take()
+	e := ep.Connect(tcpip.FullAddress{Addr: mapped(ra, dual), Port: rp})
+	w.Settle()
+	w.Probes["tcp_active_opens"]++
+	if e != tcpip.ErrConnectStarted {
+		w.Probes["tcp_active_open_refused_locally"]++
+		return
+	}
+	for _, d := range w.Take() {
+		if d.TCP == nil || d.TCP.Flags&codec.FlagSYN == 0 || d.TCP.DstPort != rp {
+			continue
+		}
+		sp := d.TCP.SrcPort
+		if bound && sp != lport {
+			w.Fail("conflicting-reservations", "", "a TCP socket bound to port %d connected from port %d", lport, sp)
+		}
+		if !bound {
+			if sp < 16000 {
+				w.Fail("ephemeral-port-out-of-range", "", "an unbound TCP socket connected from port %d, outside [16000, 65535]", sp)
+			}
+			if w.conflict(true, tcpip.Address(d.IP.Src), sp) {
+				w.Probes["bind_succeeded_despite_conflict"]++
+				if w.prop == "C10" {
+					w.Fail("conflicting-reservations", "", "an unbound TCP socket was given ephemeral port %d for its connection although an open socket holds a reservation of that port", sp)
+				}
+			} else {
+				w.Probes["ephemeral_port_checked"]++
+			}
+		}
+		// the peer refuses
+		rst := codec.EncodeTCP(d.IP.Dst, d.IP.Src, &codec.TCPSeg{SrcPort: rp, DstPort: sp, Seq: 0, Ack: d.TCP.Seq + 1, Flags: codec.FlagRST | codec.FlagACK})
+		w.ipid++
+		w.Inject(w.S.Link, ipv4.ProtocolNumber, codec.IPv4(d.IP.Dst, d.IP.Src, codec.ProtoTCP, w.ipid, 64, false, false, 0, rst), "", "", 0)
+		break
+	}
 }
 
 func (w *dmWorld) openAt(kind int, laddr tcpip.Address, lport uint16, ri, mode, ai int) *dmSock {
@@ -707,9 +795,15 @@ func (w *dmWorld) next() Step {
 		}
 		return Step{Op: "addr"}
 	case 0:
-		kind := r.Pick(4, 3, 3, 3, 2)
+		kind := r.Pick(4, 3, 3, 3, 2, 2)
 		mode := 0
 		switch kind {
+		case 5:
+			mode = []int{0, 2, 2, 1, 1, 33}[r.Intn(6)] // unbound (search start free / at the high port), bound, bound dual-stack
+		case 2:
+			if r.Chance(0.25) {
+				mode = 64
+			}
 		case 0, 1:
 			mode = r.Pick(6, 1, 1, 0, 2) // plain / bound through an interface / connected through an interface / wildcard kept
 			if mode == 4 && r.Chance(0.3) {
@@ -720,6 +814,9 @@ func (w *dmWorld) next() Step {
 				mode |= 16 // through an interface that does not exist
 			case 2:
 				mode |= 32 // dual-stack IPv6 socket
+			}
+			if r.Chance(0.15) {
+				mode |= 64 // on the port inside the ephemeral range
 			}
 		case 4:
 			mode = []int{0, 2, 8, 10}[r.Intn(4)]
@@ -790,6 +887,15 @@ func (scDemux) Run(t *testing.T, prop string, seed uint64, cfgRaw json.RawMessag
 	o := &RunOut{Cfg: cfgRaw}
 	bubble(t, func() {
 		w := &dmWorld{PeerWorld: NewPeerWorld(seed, 1500, NodeOpts{}), cfg: cfg, prop: prop}
+		seeded := verifhook.Choose
+		verifhook.Choose = func(site string, n uint32) (uint32, bool) {
+			if site == "ports.ephemeral.offset" && w.nextOffset > 0 {
+				o := uint32(w.nextOffset)
+				w.nextOffset = 0
+				return o % n, true
+			}
+			return seeded(site, n)
+		}
 		defer w.Close()
 		w.TraceOn = trace
 		w.YieldP = cfg.YieldP
